@@ -30,12 +30,23 @@ class C04(PropBase):
         n = 250 if tier == "quick" else 3000
         out = []
         for i in range(n):
-            klass = rng.choice(["distinct", "distinct", "distinct-audit", "duplicates", "scales", "empty-vs-absent"])
+            klass = rng.choice(["distinct", "distinct", "distinct-audit", "duplicates", "scales", "empty-vs-absent", "priced"])
             cfg = {"group_by": rng.choice(["year", "month", "date", "iso-week", "iso-week-date"])}
             opts = {"p_invalid": 0.0, "n_txns": rng.choice([2, 3, 4, 5, 6, 8]), "comms": common.COMMS[:rng.randrange(1, 4)],
                     "p_comments": 0.3, "p_tags": 0.3, "p_loc": 0.2}
-            if klass in ("distinct", "distinct-audit", "scales"):
+            if klass in ("distinct", "distinct-audit", "scales", "priced"):
                 opts["p_uuid"] = 1.0
+            if klass == "priced":
+                # price conversion (txn-time / last-price) with several converted commodities: the "Commodity Prices"
+                # metadata and the converted figures must not depend on hash order or arrangement either
+                opts["comms"] = common.COMMS[:4]
+                opts["p_comm"] = 1.0
+                opts["p_price"] = 0.0
+                opts["p_opening"] = 0.0
+                db = "".join("P 2020-01-0%dT00:00:00Z %s %s EUR\n" % (k + 1, c, r)
+                             for k, (c, r) in enumerate([("USD", "0.9"), ("ACME", "120"), ("He·bar", "3.5"), ("USD", "0.8")]))
+                cfg["price"] = {"db": db, "lookup": rng.choice(["txn-time", "txn-time", "last-price"])}
+                cfg["report_commodity"] = "EUR"
             if klass == "distinct-audit":
                 cfg["audit"] = True
                 cfg["hash"] = rng.choice(["SHA-256", "SHA-512", "SHA3-256"])
